@@ -657,6 +657,7 @@ fn run_ingest(ctx: &Ctx, c: &IngestCase) -> Outcome {
     let ingested = Arc::new(AtomicU64::new(0));
     let failed = Arc::new(Mutex::new(Vec::<String>::new()));
     let stalls_seen = Arc::new(AtomicBool::new(false));
+    let stalls0 = verif::INGEST_STALLS.load(Ordering::SeqCst);
     let ts = Arc::new(AtomicU64::new(1));
     let mut bg = vec![];
     for i in 0..c.compaction_threads as usize {
@@ -773,7 +774,7 @@ fn run_ingest(ctx: &Ctx, c: &IngestCase) -> Outcome {
         std::mem::forget(tree);
         timed_out = true;
     }
-    o.nontrivial = stalls_seen.load(Ordering::SeqCst);
+    o.nontrivial = stalls_seen.load(Ordering::SeqCst) || verif::INGEST_STALLS.load(Ordering::SeqCst) > stalls0;
     if o.nontrivial {
         o.label("l0-reached-stall-threshold");
     }
